@@ -76,19 +76,17 @@ let () =
       | "MAT" :: k :: entries ->
         let k = int_of_string k in
         Hashtbl.replace mats k (rows (k + 1) (List.map q_of_string entries))
-      | "SEL" :: id :: fixed :: k :: n :: t0 :: dt :: t :: [] ->
-        let fixed = (fixed = "1") in
+      | "SEL" :: id :: k :: n :: t0 :: dt :: t :: [] ->
         let kz = z_of_int (int_of_string k) and nz = z_of_int (int_of_string n) in
         let t0 = q_of_string t0 and dt = q_of_string dt and t = q_of_string t in
-        let (i, u) = bs_select fixed kz nz t0 dt t in
+        let (i, u) = bs_select kz nz t0 dt t in
         Printf.printf "SEL %s %s %s %s %s\n" id (string_of_z i) (string_of_q u)
           (string_of_q (bs_tmin t0)) (string_of_q (bs_tmax kz nz t0 dt))
-      | "EVAL" :: id :: fixed :: k :: n :: t0 :: dt :: t :: cs ->
-        let fixed = (fixed = "1") in
+      | "EVAL" :: id :: k :: n :: t0 :: dt :: t :: cs ->
         let ki = int_of_string k in
         let _ = n in
         let m = Hashtbl.find mats ki in
-        let ((g, w), a) = bs_eval_Q1 fixed m (nat_of_int ki) (List.map q_of_string cs)
+        let ((g, w), a) = bs_eval_Q1 m (nat_of_int ki) (List.map q_of_string cs)
                             (q_of_string t0) (q_of_string dt) (q_of_string t) in
         Printf.printf "EVAL %s %s %s %s\n" id (string_of_q g) (string_of_q w) (string_of_q a)
       | "MONO" :: id :: k :: u :: [] ->
